@@ -7,6 +7,7 @@ import (
 	"context"
 	"fmt"
 	"log/slog"
+	"sort"
 	"strings"
 	"time"
 	"unicode/utf8"
@@ -253,6 +254,7 @@ type Tokenizer struct {
 	dialect    keywords.SQLDialect // SQL dialect for dialect-specific keyword recognition
 	logger     *slog.Logger        // Optional structured logger for verbose tracing
 	configured bool                // keywords/dialect were chosen by the holder (not the defaults of New)
+	loc        locCache            // last position answered by toSQLPosition (successive queries scan forward from it)
 	Comments   []models.Comment    // Comments captured during tokenization
 }
 
@@ -418,6 +420,7 @@ func (t *Tokenizer) Tokenize(input []byte) ([]models.TokenWithSpan, error) {
 	}
 
 	t.input = input
+	t.loc = locCache{}
 
 	// Pre-allocate line starts slice - reuse if possible
 	estimatedLines := len(input)/50 + 1 // Estimate 50 chars per line + 1 for initial 0
@@ -556,6 +559,7 @@ func (t *Tokenizer) TokenizeContext(ctx context.Context, input []byte) ([]models
 	}
 
 	t.input = input
+	t.loc = locCache{}
 
 	// Pre-allocate line starts slice - reuse if possible
 	estimatedLines := len(input)/50 + 1 // Estimate 50 chars per line + 1 for initial 0
@@ -1690,39 +1694,58 @@ func (t *Tokenizer) readPunctuation() (models.Token, error) {
 
 // toSQLPosition converts an internal Position => a models.Location
 func (t *Tokenizer) toSQLPosition(pos Position) models.Location {
-	// Find the line containing pos
-	line := 1
-	lineStart := 0
-
-	// Find the line number using lineStarts
-	for i := 0; i < len(t.lineStarts); i++ {
-		if t.lineStarts[i] > pos.Index {
-			break
-		}
-		line = i + 1
-		lineStart = t.lineStarts[i]
+	idx := pos.Index
+	if idx < 0 || len(t.lineStarts) == 0 {
+		return models.Location{Line: 1, Column: 1}
 	}
 
-	// Calculate column by counting characters from line start
-	// Column is 1-based, so we start at 1
-	column := 1
-	for i := lineStart; i < pos.Index && i < len(t.input); i++ {
+	// The queries of one tokenizer run come in increasing offset order, so the answer is
+	// computed by scanning forward from the previous one instead of from the start of the
+	// input for every token (which made tokenizing quadratic in the input size).
+	c := &t.loc
+	if !c.valid || c.lineIdx >= len(t.lineStarts) || idx < c.index {
+		// First query, or a query behind the previous one: locate the line by binary search
+		// and count the column from the start of that line.
+		lineIdx := sort.Search(len(t.lineStarts), func(i int) bool { return t.lineStarts[i] > idx }) - 1
+		if lineIdx < 0 {
+			lineIdx = 0
+		}
+		c.valid, c.lineIdx, c.index, c.column = true, lineIdx, t.lineStarts[lineIdx], 1
+	}
+
+	// Advance to the line containing idx
+	if c.lineIdx+1 < len(t.lineStarts) && t.lineStarts[c.lineIdx+1] <= idx {
+		for c.lineIdx+1 < len(t.lineStarts) && t.lineStarts[c.lineIdx+1] <= idx {
+			c.lineIdx++
+		}
+		c.index, c.column = t.lineStarts[c.lineIdx], 1
+	}
+
+	// Count the column from the last answered offset on this line
+	// (column is 1-based; a tab counts as 4 columns)
+	for i := c.index; i < idx && i < len(t.input); i++ {
 		if t.input[i] == '\t' {
-			column += 4 // Treat tab as 4 spaces
+			c.column += 4
 		} else {
-			column++
+			c.column++
 		}
 	}
-
-	// Ensure column is never less than 1
-	if column < 1 {
-		column = 1
-	}
+	c.index = idx
 
 	return models.Location{
-		Line:   line,
-		Column: column,
+		Line:   c.lineIdx + 1,
+		Column: c.column,
 	}
+}
+
+// locCache is the resume point of toSQLPosition: the byte offset it answered last, the
+// index of its line in lineStarts and its column. It is invalidated whenever the input
+// or the line table changes.
+type locCache struct {
+	valid   bool
+	index   int
+	lineIdx int
+	column  int
 }
 
 // getCurrentPosition returns the Location of the tokenizer's current byte index
